@@ -313,6 +313,27 @@ def run(tier, seed):
         cases.q("avail", t); cases.q("resolve", t, "fbase")
     for p in ("pkg/conftest.py", "sharedmod.py"):
         cases.q("imported", p)
+    # (fixed) a dotted module path THROUGH a directory without `__init__.py` (a namespace package): `fixtures.db` is
+    # `fixtures/db.py` all the same, by pytest_plugins, star import and explicit import
+    ns = {
+        "fixtures/db.py": FX.format("fdb"),
+        "fixtures/deep/cache.py": FX.format("fcache"),
+        "conftest.py": 'pytest_plugins = ["fixtures.db"]\n',
+        "sub/conftest.py": "from fixtures.deep.cache import *\n",
+        "other/conftest.py": "import pytest\nfrom fixtures.db import fdb\n",
+        "test_ns.py": "def test_it(fdb):\n    pass\n",
+        "sub/test_ns.py": "def test_it(fdb, fcache):\n    pass\n",
+        "other/test_ns.py": "def test_it(fdb):\n    pass\n",
+    }
+    cases.case("gns", {"kind": "imports"})
+    for k, (p, t) in enumerate(sorted(ns.items())):
+        cases.text("f%d" % k, t); cases.raw("disk %s f%d" % (p, k))
+    cases.op("scan")
+    cases.q("dump")
+    for t in ("test_ns.py", "sub/test_ns.py", "other/test_ns.py"):
+        cases.q("avail", t); cases.q("resolve", t, "fdb"); cases.q("resolve", t, "fcache")
+    for p in ("conftest.py", "sub/conftest.py", "other/conftest.py"):
+        cases.q("imported", p)
     for i in range(n):
         rng = r.rng
         if i % 2 == 0:
